@@ -41,7 +41,7 @@ def addrLe (a b : String) : Bool := decide (a ≤ b)
 def sigOfKind (kind : String) : String :=
   if kind = "delegators" then "delegators-order-apphash"
   else if kind = "genesismaps" then "genesis-map-order-apphash"
-  else if kind = "unjail" then "unjail-wallclock"
+  else if kind = "unjail" then "wallclock-dependence"
   else if kind = "unstakequeue" then "unstake-queue-order-apphash"
   else "generic-nondeterminism"
 
